@@ -30,8 +30,12 @@ func addrOf(i int) thor.Address {
 	return thor.BytesToAddress(h[:20])
 }
 
-// every third key is a small number (leading zeros: the preimage metadata is trimmed), the others are hashes
+// key 1 is slot 0 (the all-zero key), every third key is a small number (leading zeros: the preimage metadata is
+// trimmed), the others are hashes
 func keyOf(k int) thor.Bytes32 {
+	if k == 1 {
+		return thor.Bytes32{}
+	}
 	if k%3 == 0 {
 		return thor.BytesToBytes32(be4(k))
 	}
